@@ -866,6 +866,17 @@ def check_mix(item, tier, seed=0):
                     r.violation('mixture:raised', dict(detail, error=repr(e)[:200]), item, finding=fid)
                     continue
                 compare(r, item, 'mixture', exp, M, detail)
+                # the building blocks of a weighted mixture: a table given by scores, and a scaled table, read back as the
+                # normalised weights of their rows (zero rows stay at 0 and take no mass away from the others)
+                if scaled and a > 0:
+                    wants = {}
+                    for asg, w in rows1:
+                        if w > 0:
+                            ev = frozenset(zip(h, asg))
+                            wants[ev] = wants.get(ev, F(0)) + F(w)
+                    for what, tab in ((('table_from_logits', P),) if how1 == 'logits' else ()) + (('scaled_table', P * float(a)),):
+                        r.count('transitions')
+                        compare(r, item, what, wants, tab, detail)
                 if exp:
                     r.outcome(('mix', len(exp), tuple(sorted(str(w) for w in exp.values()))))
             if digest(('m', h, i, j)) % 20000 == 0 and len(rows1) > 1 and len(rows2) > 1:
